@@ -702,3 +702,90 @@ Proof.
   - left. split; [lia | congruence].
   - right. split; [lia | exact E].
 Qed.
+
+(* ================================================================== registry with cached tables *)
+Section RegistryT.
+Variables V T : Type.
+Variable build : V -> T.
+Variable default : V.
+Notation targs := (t_args default).
+Notation coh := (coherent build).
+
+Lemma tlookup_set (E : Type) k k' (v : E) st :
+  reg_lookup k (reg_set k' v st) = if k' =? k then Some v else reg_lookup k st.
+Proof.
+  induction st as [|[k2 v2] st IH]; cbn [reg_set reg_lookup].
+  - destruct (k' =? k); reflexivity.
+  - destruct (k2 =? k') eqn:E2; cbn [reg_lookup].
+    + destruct (k' =? k) eqn:E1; [reflexivity|]. replace (k2 =? k) with false by lia. reflexivity.
+    + destruct (k2 =? k) eqn:E3; [replace (k' =? k) with false by lia; reflexivity | exact IH].
+Qed.
+Lemma coh_set st k v (c : option T) : coh st -> (forall t, c = Some t -> t = build v) -> coh (reg_set k (v, c) st).
+Proof.
+  intros C Hc k' v' t'. rewrite tlookup_set. destruct (k =? k'); [|apply C].
+  intros E. inversion E; subst. apply Hc. reflexivity.
+Qed.
+Lemma targs_set st k v (c : option T) k' : targs (reg_set k (v, c) st) k' = if k =? k' then v else targs st k'.
+Proof. unfold t_args. rewrite tlookup_set. destruct (k =? k'); reflexivity. Qed.
+
+Lemma t_call_get st k : coh st ->
+  coh (fst (t_call default st k None)) /\ snd (t_call default st k None) = targs st k /\
+  forall k', targs (fst (t_call default st k None)) k' = targs st k'.
+Proof.
+  intros C. unfold t_call. destruct (reg_lookup k st) as [[v c]|] eqn:L; cbn [fst snd].
+  - split; [exact C|]. split; [unfold t_args; rewrite L; reflexivity | reflexivity].
+  - split; [apply coh_set; [exact C | discriminate]|]. split; [unfold t_args; rewrite L; reflexivity|].
+    intros k'. rewrite targs_set. destruct (k =? k') eqn:E; [|reflexivity].
+    unfold t_args. replace k' with k by lia. rewrite L. reflexivity.
+Qed.
+Lemma t_step_ok st o : coh st ->
+  coh (t_step build default st o) /\ forall k', targs (t_step build default st o) k' = spec_step (targs st) o k'.
+Proof.
+  intros C. destruct o as [k [v|] | k f | k]; cbn [t_step spec_step].
+  - cbn [t_call fst]. split; [apply coh_set; [exact C | discriminate]|]. intros k'. apply targs_set.
+  - destruct (t_call_get st k C) as (C1 & _ & A1). split; [exact C1 | exact A1].
+  - unfold t_obj. destruct (t_call_get st k C) as (C1 & R1 & A1).
+    destruct (t_call default st k None) as [st1 v] eqn:E1. cbn [fst snd] in *. subst v.
+    destruct (f (targs st k)) as [v'|]; cbn [fst].
+    + split; [apply coh_set; [exact C1 | discriminate]|]. intros k'. rewrite targs_set, A1. reflexivity.
+    + split; [exact C1 | exact A1].
+  - unfold t_use. destruct (reg_lookup k st) as [[v [t|]]|] eqn:L; cbn [fst].
+    + split; [exact C | reflexivity].
+    + split; [apply coh_set; [exact C | intros t E; congruence]|]. intros k'. rewrite targs_set.
+      destruct (k =? k') eqn:E; [|reflexivity]. unfold t_args. replace k' with k by lia. rewrite L. reflexivity.
+    + split; [apply coh_set; [exact C | intros t E; congruence]|]. intros k'. rewrite targs_set.
+      destruct (k =? k') eqn:E; [|reflexivity]. unfold t_args. replace k' with k by lia. rewrite L. reflexivity.
+Qed.
+Lemma spec_step_ext (g1 g2 : Z -> V) o : (forall k, g1 k = g2 k) -> forall k, spec_step g1 o k = spec_step g2 o k.
+Proof.
+  intros E k. destruct o as [k0 [v|] | k0 f | k0]; cbn [spec_step]; try apply E.
+  - rewrite E. reflexivity.
+  - rewrite E. destruct (f (g2 k0)); [rewrite E; reflexivity | apply E].
+Qed.
+Lemma spec_run_ext ops : forall (g1 g2 : Z -> V), (forall k, g1 k = g2 k) -> forall k, spec_run ops g1 k = spec_run ops g2 k.
+Proof.
+  induction ops as [|o ops IH]; intros g1 g2 E k; cbn [spec_run fold_left]; [apply E|].
+  apply IH. apply spec_step_ext. exact E.
+Qed.
+(* with coherent caches a table-path call reads the table of the arguments currently registered *)
+Lemma t_table_coherent st k : coh st -> t_table build default st k = build (targs st k).
+Proof.
+  intros C. unfold t_table, t_use, t_args. destruct (reg_lookup k st) as [[v [t|]]|] eqn:L; cbn [snd]; try reflexivity.
+  exact (C k v t L).
+Qed.
+(* LAST WRITE WINS, tables included: after ANY history of registrations (by key or through a fetched object),
+   fetches and table-path uses, calendar(k) carries the arguments last registered for k and its table-path
+   methods read the table built from exactly those arguments -- never a table populated for older holidays *)
+Theorem registry_tables_last_write_wins ops : forall st, coh st ->
+  coh (t_run build default ops st) /\
+  forall k, targs (t_run build default ops st) k = spec_run ops (targs st) k /\
+            t_table build default (t_run build default ops st) k = build (spec_run ops (targs st) k).
+Proof.
+  induction ops as [|o ops IH]; intros st C.
+  - split; [exact C|]. intros k. split; [reflexivity | apply t_table_coherent; exact C].
+  - change (t_run build default (o :: ops) st) with (t_run build default ops (t_step build default st o)).
+    destruct (t_step_ok st o C) as (C1 & A1). destruct (IH _ C1) as (C2 & A2). split; [exact C2|].
+    intros k. change (spec_run (o :: ops) (targs st)) with (spec_run ops (spec_step (targs st) o)).
+    destruct (A2 k) as (E1 & E2). rewrite E1, E2. rewrite (spec_run_ext ops _ _ A1 k). split; reflexivity.
+Qed.
+End RegistryT.
